@@ -632,6 +632,14 @@ func (e *Enc) patAlias(term, sortName string) string {
 // sliceHeapWF: every slice header stored in a heap version is well formed (contracts read such
 // headers without going through an SSA load, which is where the other type facts are attached).
 func (e *Enc) sliceHeapWF(h Heap, term string) {
+	if h.Kind == HMapL {
+		// map lengths are never negative and the nil map is empty
+		e.nquant++
+		qa := fmt.Sprintf("qw!%d", e.nquant)
+		e.fact(fmt.Sprintf("(forall ((%s Int)) (! (>= (select %s %s) 0) :pattern ((select %s %s))))", qa, term, qa, term, qa))
+		e.fact(fmt.Sprintf("(= (select %s 0) 0)", term))
+		return
+	}
 	if h.Elem != 2 {
 		return
 	}
@@ -673,6 +681,9 @@ func (e *Enc) emitEntryClosed() {
 	a0 := e.entry.get(allocHeap)
 	for _, k := range names {
 		h := e.relevant[k]
+		if h.Kind == HMapL {
+			e.sliceHeapWF(h, e.entry.get(h))
+		}
 		if h.Elem == 0 {
 			continue
 		}
@@ -1928,7 +1939,8 @@ func (e *Enc) encodeLookup(in *ssa.Lookup, st *State) {
 	case *types.Map:
 		hp, hv, _ := s.MapHeaps(u)
 		r, k := e.term(in.X), e.term(in.Index)
-		present := "(select (select " + st.get(hp) + " " + r + ") " + k + ")"
+		// a nil map has no keys
+		present := "(and (not (= " + r + " 0)) (select (select " + st.get(hp) + " " + r + ") " + k + "))"
 		val := "(ite " + present + " (select (select " + st.get(hv) + " " + r + ") " + k + ") " + s.ZeroOf(u.Elem()) + ")"
 		if in.CommaOk {
 			v := e.define("v$"+in.Name()+"$0", s.SortOf(u.Elem()), val)
